@@ -94,6 +94,18 @@ def run_c12(ctx):
     for st in behs[:n]:
         g = gen.Gen(rng, neg=0.2, tables=0.3, zero_src=0.1, limits=gen.applicable_limits)
         systems.append(drv_solve.build_system(st, g, rng))
+    # systems left behind by edit histories (freed and re-used node indices, renamed and re-linked components, edited mux
+    # inputs): "for any system S" includes them
+    import drv_edit
+    hn, hd = (60, 14) if ctx.quick else (1200, 30)
+    hb, _ = tlc.run_sim("SimEdit.tla", "SimEdit.cfg", ctx.work, num=hn, depth=hd, seed=ctx.seed + 12)
+    mb, _ = tlc.run_sim("SimEdit.tla", "SimMux.cfg", ctx.work, num=hn // 3, depth=hd, seed=ctx.seed + 13)
+    for states in hb + mb:
+        sh = drv_edit.new_system()
+        for st in states:
+            drv_edit.do_call(sh, st["act"]["op"], st["act"]["a"])
+        systems.append(sh)
+    res.extra["history_built_systems"] = len(hb) + len(mb)
     cases, structs = [], set()
     for i, s in enumerate(systems):
         s2, exc = None, None
@@ -190,8 +202,28 @@ def _doc_names(doc):
     return out
 
 
+REPORT_CASES = []      # descriptive-report cases of the current C16 run (TraceReports.tla)
+
+
+def validate_reports(ctx, res, cases):
+    if not cases:
+        return
+    for c in cases:
+        c["id"] = 3 * 10 ** 6 + c["id"]
+    res.add_traces([{"tid": c["id"], "kind": "solve", "events": [c]} for c in cases])
+    batches = [cases[i::tlc.NCPU] for i in range(tlc.NCPU) if cases[i::tlc.NCPU]]
+    verd, stat, states = tlc.validate("TraceReports.tla", "TraceReports.cfg", batches, ctx.work)
+    res.verd += verd
+    for k, v in stat.items():
+        if k != "events":
+            res.stat[k] = res.stat.get(k, 0) + v
+    res.extra["trace_validation_states"] = res.extra.get("trace_validation_states", 0) + states
+    res.extra["descriptive_report_cases"] = len(cases)
+
+
 def c16_cases(s, cases, what, rng, rec=None):
     from rebuild import rebuild
+    REPORT_CASES.append(reports.report_case(s, len(REPORT_CASES), what))
     st = project(s)
     id0 = len(cases)
     ra = reports.all_reports(s)
@@ -226,6 +258,7 @@ def run_c16(ctx):
     import props_edit
     import drv_edit
     from record import Recorder
+    del REPORT_CASES[:]
     res = Result()
     rng = ctx.rng
     cases = []
@@ -277,6 +310,16 @@ def run_c16(ctx):
     for c in cases:
         c["id"] = 10 ** 6 + c["id"]
     validate_twins(ctx, res, cases)
+    # params() / limits() / phases() / tree() as relations to the abstract state: the history-built systems above and
+    # numeric systems with tables, resistance lists, limits (applicable and not), phases and several sources
+    behs = build_behaviours(ctx, 70 if q else 1500, depths=(4, 7, 10, 13))
+    for st in behs:
+        try:
+            sn = drv_solve.build_system(st, gen.Gen(rng, neg=0.2, tables=0.4, limits=gen.random_limits), rng)
+        except drv_solve.BuildFailure:
+            continue
+        REPORT_CASES.append(reports.report_case(sn, len(REPORT_CASES), "generated numeric system"))
+    validate_reports(ctx, res, list(REPORT_CASES))
     res.extra["distinct_nontrivial"] = len({struct_digest(c["st"]) for c in cases if c.get("st")})
     res.samples = [{"what": c["what"], "clause": c["clause"]} for c in cases[:3]]
     res.assumptions = ["reports of the history-built system are compared with those of a system built from the projected state through the public API "
